@@ -54,6 +54,8 @@ def cases(tier, seed):
         out.append({"kind": "loader", "model": ("ZNCC", "NCC", "PCC")[int(rng.integers(0, 3))],
                     "scale": float(rng.choice([1.0, 0.6])), "upsample": int(rng.choice([1, 2])),
                     "iseed": int(rng.integers(0, 2**31)), "cost": 6.0})
+    if tier == "thorough":
+        out.append({"kind": "suite", "cost": 400.0, "iseed": 0})
     return out
 
 
@@ -157,7 +159,21 @@ def _model_case(case):
     # (circular PCC landscapes cannot represent shifts beyond box/2: boxes below 2*(M+2)+2 are skipped)
     if p["pair"] == "displaced" and p["mask"] == "none" and min(shape) >= 8:
         M = (2.0, 2.0, 2.0) if not small else (1.0, 1.0, 1.0)
+        # ZNCC landscapes do not depend on a constant background or a positive gain of the sub-volume
+        bg = float(rng.choice([5.0, 40.0])) * float(tmpl.max())
+        gn = float(rng.choice([0.01, 1.0, 30.0]))
+        l0 = np.asarray(models["ZNCC"].landscape(img, M, quat, pos))
+        l1 = np.asarray(models["ZNCC"].landscape((img * np.float32(gn) + np.float32(bg * gn)), M, quat, pos))
+        dl = float(np.abs(l0 - l1).max()) if l0.shape == l1.shape else np.inf
+        case.maxobs("max_landscape_offset_diff", dl if np.isfinite(dl) else 9.9)
+        case.check(dl <= 5e-3, "ZNCC landscape changed by a constant background / positive gain", None, diff=dl,
+                   background=bg, gain=gn, shape=shape, tilt=p["tilt"])
+        img_plain = img
+        if rng.random() < 0.5:
+            img = (img * np.float32(gn) + np.float32(bg * gn)).astype(np.float32)
         for name in ("ZNCC", "NCC", "PCC", "FSC"):
+            if name != "ZNCC":
+                img = img_plain
             up = int(rng.choice([1, 2, 5])) if name != "FSC" else int(rng.choice([1, 2]))
             al = models[name].align(img, M, quat, pos)
             lds = np.asarray(models[name].landscape(img, M, quat, pos, upsample=up))
@@ -221,6 +237,12 @@ def _loader_case(case):
 
 
 def run(case):
+    if case.params.get("kind") == "suite":
+        from vcheck.suite_run import run_suite_with_contracts
+
+        run_suite_with_contracts(case, ('K2',))
+        case.nontrivial("suite")
+        return
     from vcheck import instr
 
     if case.params["kind"] == "model":
